@@ -386,7 +386,7 @@ func c10Dec(c *fw.Ctx, i int) {
 	for k, pl := range payloads {
 		var out []byte
 		var err error
-		if pv, st := fw.Guard(func() { out, err = dp.Unmarshal(append([]byte(nil), pl...)) }); pv != nil {
+		if pv, st := fw.Guard(func() { out, err = dp.Unmarshal(fw.Exact(pl)) }); pv != nil {
 			c.Fail("C10/decoder/panic/"+fw.PanicFunc(st), fmt.Sprintf("H264Packet panicked on a well-formed RFC 6184 payload: %v", pv), wit("stack", st))
 			return
 		}
